@@ -11,10 +11,23 @@ def allowedRefusals : List String :=
   ["err:ErrDuplicateJoinerID"] ++
   ([Err.notStarted, .gone, .noSuccessor, .unreachable].filter isLookupError).map (fun e => "err:" ++ e.name)
 
-def spec (_net _net' : Net) (toks : List String) (ires : String) : Option String :=
+def lookupErrNames : List String :=
+  ([Err.notStarted, .gone, .noSuccessor, .unreachable].filter isLookupError).map (fun e => "err:" ++ e.name)
+
+/-- what the model answers to the same request on the same (validated) net -/
+def modelAnswer (net : Net) (toks : List String) : Option String :=
+  (simOp net toks).map (·.2)
+
+def spec (net _net' : Net) (toks : List String) (ires : String) : Option String :=
   match toks with
   | "reqjoin" :: _ | "reqjoinrace" :: _ =>
-    if ires.startsWith "ok:" || allowedRefusals.contains ires then none
+    if ires.startsWith "ok:" || (allowedRefusals.contains ires && !lookupErrNames.contains ires) then none
+    else if lookupErrNames.contains ires then
+      -- a non-retryable lookup error is admitted only when the request really could not be routed to a node
+      -- responsible for the joiner (dead / departed / not started node on the route): the model's routing over
+      -- the same pointers must fail with the same error
+      if modelAnswer net toks == some ires then none
+      else some s!"join request answered with the non-retryable {ires} although it reached a node that could refuse it retryably (model: {(modelAnswer net toks).getD "?"})"
     else some s!"join request answered with {ires}"
   | _ => none
 
